@@ -17,6 +17,7 @@ pub mod fs;
 pub mod mpsc;
 pub mod par;
 pub mod sim;
+pub mod sync;
 pub mod thread;
 pub mod time;
 pub mod trace;
